@@ -448,16 +448,18 @@ def c02_9(R):
         if blk.cleanup or blk.term.kind != "switch" or blk.idx not in sp.live_blocks():
             continue
         c, neg = switch_cond(sp, blk.term)
-        if c.kind == "bin" and c.op in ("Eq", "Ne") and c.b.kind == "const" and c.b.scalar == 0:
-            nm = copied_from(sp, c.a)
-            ta = trace(sp, c.a, through_casts=False)
+        for operand_truth in (True, False):
+            xz = zero_test(c, operand_truth)
+            if xz is None:
+                continue
+            ta = trace(sp, xz, through_casts=False)
             from_slices = False
             if ta.kind == "rv" and ta.root[1].rv.kind == "bin" and ta.root[1].rv.op.startswith("Add"):
                 from_slices = all((lambda t: t.kind == "call" and (t.root[1].resolved or "").endswith("slice::len"))(trace(sp, o)) for o in ta.root[1].rv.ops)
-            if nm == "tx_len" or from_slices:
+            if from_slices:
                 be = bool_edges(sp, blk.idx)
-                eq_true = (c.op == "Eq") != neg
-                zero_targets.append(be[1] if eq_true else be[0])
+                edge_truth_ = operand_truth != neg
+                zero_targets.append(be[1] if edge_truth_ else be[0])
     R.require(len(zero_targets) >= 1, "test of tx_len == 0 in split_tx_queue_into_segments")
     rets = sp.return_blocks()
     bad = False
